@@ -249,4 +249,15 @@ def r7_synthetic_end(ctx):
         ctx.floor("R7", "InsideEmpty paths of the event loop", n, 2 if "async-tokio" in F.features else 1, config=cfg)
 
 
-RULES = [("R1", r1_table), ("R2", r2_compare), ("R3", r3_push), ("R5", r5_options_during_skip), ("R6", r6_read_text_goes_through_skip), ("R7", r7_synthetic_end)]
+def r8_whitespace(ctx):
+    """where a start tag's name ends and what is trimmed from an end tag's name is decided by XML white space (C01 R5:
+    one notion, four characters): a wider set makes `</a\x0C>` close `a`"""
+    import c01
+    n0 = len(ctx.obs)
+    c01.r5_whitespace(ctx)
+    for o in ctx.obs[n0:]:
+        o["site"] = "whitespace:" + o["site"]
+        o["rule"] = "R8"
+
+
+RULES = [("R1", r1_table), ("R2", r2_compare), ("R3", r3_push), ("R5", r5_options_during_skip), ("R6", r6_read_text_goes_through_skip), ("R7", r7_synthetic_end), ("R8", r8_whitespace)]
